@@ -100,33 +100,161 @@ def _single_value(fi, name):
     return None
 
 
+def _expression_function(fi, call):
+    """(FuncInfo, return expression) when ``call`` names a function -- nested in ``fi`` or at module level -- whose
+    whole body is ``return <expr>`` (a docstring aside): such a call can be read as the expression itself."""
+    if not (isinstance(call, ast.Call) and isinstance(call.func, ast.Name)):
+        return None
+    name = call.func.id
+    g = fi.mod.functions.get('%s.%s' % (fi.qualname, name))
+    if g is None:
+        if name in _all_params(fi) or assigned_value(fi.node, name):
+            return None
+        try:
+            kind, m, obj = fi.mod.repo.resolve(fi.mod, name)
+        except Exception:
+            return None
+        if kind != 'func' or m is not fi.mod:
+            return None
+        g = obj
+    elif assigned_value(fi.node, name):
+        return None
+    if not isinstance(g.node, ast.FunctionDef) or g.node.decorator_list or g.node is fi.node:
+        return None
+    body = list(g.node.body)
+    if body and isinstance(body[0], ast.Expr) and isinstance(body[0].value, ast.Constant) and isinstance(body[0].value.value, str):
+        body = body[1:]
+    if len(body) != 1 or not isinstance(body[0], ast.Return) or body[0].value is None:
+        return None
+    return g, body[0].value
+
+
+def _inline_expression_call(fi, call):
+    """The return expression of an expression function with the arguments substituted, or None."""
+    import copy
+    found = _expression_function(fi, call)
+    if found is None:
+        return None
+    g, value = found
+    a = g.node.args
+    if a.vararg or a.kwarg or any(isinstance(x, ast.Starred) for x in call.args) or any(k.arg is None for k in call.keywords):
+        return None
+    names = [x.arg for x in a.posonlyargs + a.args]
+    kwonly = [x.arg for x in a.kwonlyargs]
+    if len(call.args) > len(names):
+        return None
+    binding = dict(zip(names, call.args))
+    for k in call.keywords:
+        if k.arg in binding or k.arg not in names + kwonly:
+            return None
+        binding[k.arg] = k.value
+    defaults = dict(zip(names[len(names) - len(a.defaults):], a.defaults))
+    for x, d in zip(kwonly, a.kw_defaults):
+        if d is not None:
+            defaults[x] = d
+    for n in names + kwonly:
+        if n not in binding:
+            if n not in defaults:
+                return None
+            binding[n] = defaults[n]
+    shadow = set()
+    for n in ast.walk(value):
+        if isinstance(n, ast.comprehension):
+            shadow |= set(x.id for x in ast.walk(n.target) if isinstance(x, ast.Name))
+        elif isinstance(n, ast.Lambda):
+            shadow |= set(x.arg for x in n.args.posonlyargs + n.args.args + n.args.kwonlyargs)
+        elif isinstance(n, ast.Call) and isinstance(n.func, ast.Name) and n.func.id == g.node.name:
+            return None    # recursive
+    if shadow & set(binding):
+        return None
+    free = set(n.id for n in ast.walk(value) if isinstance(n, ast.Name)) - set(binding)
+    if '.' not in g.qualname and any(n in _all_params(fi) or assigned_value(fi.node, n) for n in free):
+        return None        # a module-level name of the callee is shadowed by a local of the caller
+
+    class _Sub(ast.NodeTransformer):
+        def visit_Name(self_, node):
+            if node.id in binding and isinstance(node.ctx, ast.Load):
+                return ast.copy_location(copy.deepcopy(binding[node.id]), node)
+            return node
+    return ast.copy_location(_Sub().visit(copy.deepcopy(value)), call)
+
+
+def _const_index(idx):
+    if isinstance(idx, ast.UnaryOp) and isinstance(idx.op, ast.USub) and isinstance(idx.operand, ast.Constant) and \
+            isinstance(idx.operand.value, int) and not isinstance(idx.operand.value, bool):
+        return -idx.operand.value
+    if isinstance(idx, ast.Constant) and isinstance(idx.value, int) and not isinstance(idx.value, bool):
+        return idx.value
+    return None
+
+
 def _deref(fi, expr, limit=8):
-    """Follow ``name`` -> the expression it was (once) assigned, and ``pair[0]`` -> that element of a literal tuple /
-    list held by a once-assigned local, repeatedly."""
+    """Follow ``name`` -> the expression it was (once) assigned (also as one position of an unpacked sequence that can
+    be followed), ``pair[0]`` -> that element of a literal tuple held by a once-assigned local, and a call of an
+    expression function (``def page(p): return (p, endpoint, NAME)``) -> its return expression, repeatedly."""
     while limit > 0:
         limit -= 1
         if isinstance(expr, ast.Name):
             v = _single_value(fi, expr.id)
-            if v is None:
-                break
-            expr = v
-            continue
+            if v is not None:
+                expr = v
+                continue
+            b = assigned_value(fi.node, expr.id) if expr.id not in _all_params(fi) else []
+            if len(b) == 1 and isinstance(b[0][2], int) and isinstance(b[0][0], ast.Assign) and len(b[0][0].targets) == 1 and \
+                    isinstance(b[0][0].targets[0], (ast.Tuple, ast.List)) and \
+                    not any(isinstance(t, ast.Starred) for t in b[0][0].targets[0].elts):
+                try:
+                    elts = _seq_elements(fi, b[0][1], 'unpacking', 6 - min(limit, 5))
+                except AnalysisError:
+                    break
+                if len(elts) == len(b[0][0].targets[0].elts):
+                    expr = elts[b[0][2]]
+                    continue
+            break
         if isinstance(expr, ast.Subscript) and isinstance(expr.ctx, ast.Load) and isinstance(expr.value, ast.Name):
-            idx = expr.slice
-            if isinstance(idx, ast.UnaryOp) and isinstance(idx.op, ast.USub) and isinstance(idx.operand, ast.Constant) and \
-                    isinstance(idx.operand.value, int):
-                i = -idx.operand.value
-            elif isinstance(idx, ast.Constant) and isinstance(idx.value, int) and not isinstance(idx.value, bool):
-                i = idx.value
-            else:
+            i = _const_index(expr.slice)
+            if i is None:
                 break
             seq = _single_value(fi, expr.value.id)
-            # a tuple is immutable; a list only counts when nothing else touches the local
+            # a tuple is immutable; a list could have been changed in between
             if isinstance(seq, ast.Tuple) and not any(isinstance(e, ast.Starred) for e in seq.elts) and -len(seq.elts) <= i < len(seq.elts):
                 expr = seq.elts[i]
                 continue
+            break
+        if isinstance(expr, ast.Call):
+            v = _inline_expression_call(fi, expr)
+            if v is not None:
+                expr = v
+                continue
         break
     return expr
+
+
+def _closed(fi, expr, depth=0):
+    """``expr`` with the once-assigned locals of ``fi`` and its expression-function calls replaced by what they stand
+    for, so that it can be read outside ``fi`` (it then only mentions module-level names, constants -- and parameters
+    of ``fi``, which stay as they are)."""
+    import copy
+    if depth > 6:
+        return expr
+
+    class _Close(ast.NodeTransformer):
+        def visit_Name(self_, node):
+            if isinstance(node.ctx, ast.Load):
+                v = _deref(fi, node)
+                if v is not node:
+                    return _closed(fi, copy.deepcopy(v) if not isinstance(v, ast.Name) else v, depth + 1)
+            return node
+
+        def visit_Call(self_, node):
+            v = _inline_expression_call(fi, node)
+            if v is not None:
+                return _closed(fi, v, depth + 1)
+            return self_.generic_visit(node)
+
+        def visit_Lambda(self_, node):
+            return node
+    return _Close().visit(copy.deepcopy(expr))
 
 
 def _canon_name(fi, expr):
@@ -182,6 +310,20 @@ def _seq_elements(fi, expr, what, depth=0):
         return _seq_elements(fi, expr.left, what, depth + 1) + _seq_elements(fi, expr.right, what, depth + 1)
     if isinstance(expr, ast.Call) and call_name(expr) in ('list', 'tuple') and len(expr.args) == 1 and not expr.keywords:
         return _seq_elements(fi, expr.args[0], what, depth + 1)
+    if isinstance(expr, ast.Call) and isinstance(expr.func, ast.Name):
+        v = _inline_expression_call(fi, expr)
+        if v is not None:
+            return _seq_elements(fi, v, what, depth + 1)
+        # routes = build_routes(): a function of the module that takes nothing and ends in one ``return <sequence>``
+        try:
+            kind, m, g = fi.mod.repo.resolve(fi.mod, expr.func.id)
+        except Exception:
+            kind, m, g = 'unknown', None, None
+        if kind == 'func' and m is fi.mod and g.node is not fi.node and not expr.args and not expr.keywords and \
+                expr.func.id not in _all_params(fi) and not assigned_value(fi.node, expr.func.id):
+            rets = returns_of(g)
+            if len(rets) == 1 and rets[0].value is not None and _straight_line(g, rets[0]) and not g.params():
+                return [_closed(g, e) for e in _seq_elements(g, rets[0].value, what, depth + 1)]
     if isinstance(expr, (ast.ListComp, ast.GeneratorExp)) and len(expr.generators) == 1 and not expr.generators[0].ifs and \
             isinstance(expr.generators[0].target, ast.Name) and not expr.generators[0].is_async:
         # [(p, endpoint, name) for p in ('/', '/<x*>')]: one element per constant of the iterated literal
@@ -546,10 +688,13 @@ def _flat_view(repo, mod):
         return mod
 
 
+_METHOD_ROUTES = ('GET', 'POST', 'PUT', 'DELETE', 'HEAD', 'OPTIONS', 'PATCH', 'TRACE', 'CONNECT')
+
+
 class _Route(object):
-    def __init__(self, kind, node, pattern=None, endpoint=None, endpoint_text=None, render=None, app=None):
-        self.kind, self.node, self.pattern, self.endpoint, self.endpoint_text, self.render, self.app = \
-            kind, node, pattern, endpoint, endpoint_text, render, app
+    def __init__(self, kind, node, pattern=None, endpoint=None, endpoint_text=None, render=None, app=None, methods=None):
+        self.kind, self.node, self.pattern, self.endpoint, self.endpoint_text, self.render, self.app, self.methods = \
+            kind, node, pattern, endpoint, endpoint_text, render, app, methods
 
 
 class _Failsafe(object):
@@ -616,9 +761,10 @@ class _Failsafe(object):
         out = []
         for e in _seq_elements(ca, self.routes_node, 'create_app routes'):
             e0 = _deref(ca, e)
+            methods = None
             if isinstance(e0, ast.Subscript) and isinstance(e0.slice, (ast.Constant, ast.UnaryOp)):
                 # pages[0] / pages[-1] of a list that can be followed
-                idx = self.repo.try_fold(e0.slice, self.flaw, None)
+                idx = _const_index(e0.slice)
                 seq = _seq_elements(ca, e0.value, 'create_app routes')
                 if not isinstance(idx, int) or not -len(seq) <= idx < len(seq):
                     raise AnalysisError('create_app: route entry %s cannot be read' % short(e0))
@@ -627,9 +773,14 @@ class _Failsafe(object):
                 parts = list(e0.elts)
             elif isinstance(e0, ast.Call) and call_tail(e0) == 'SubApplication' and len(e0.args) == 2 and not e0.keywords:
                 parts = list(e0.args)
-            elif isinstance(e0, ast.Call) and call_tail(e0) == 'Route' and not any(k.arg is None for k in e0.keywords):
+            elif isinstance(e0, ast.Call) and call_tail(e0) in ('Route',) + _METHOD_ROUTES and not any(k.arg is None for k in e0.keywords):
                 parts = [argn(e0, 'pattern', 0), argn(e0, 'endpoint', 1), argn(e0, 'render', 2)]
-                extra = [k.arg for k in e0.keywords if k.arg not in ('pattern', 'endpoint', 'render')]
+                if call_tail(e0) in _METHOD_ROUTES:
+                    methods = call_tail(e0)
+                mk = argn(e0, 'methods', None)
+                if mk is not None and not (isinstance(mk, ast.Constant) and mk.value is None):
+                    methods = norm(mk)
+                extra = [k.arg for k in e0.keywords if k.arg not in ('pattern', 'endpoint', 'render', 'methods')]
                 if None in parts or extra or len(e0.args) > 3:
                     raise AnalysisError('create_app: route %s cannot be read' % short(e0))
             else:
@@ -657,7 +808,7 @@ class _Failsafe(object):
                         self._explicit_renders = getattr(self, '_explicit_renders', []) + [rc.func]
                     else:
                         render = norm(rc)
-                out.append(_Route('page', e, pattern, epf, epf.qualname if epf is not None else norm(ep), render))
+                out.append(_Route('page', e, pattern, epf, epf.qualname if epf is not None else norm(ep), render, methods=methods))
             elif len(parts) == 2:
                 out.append(_Route('mount', e, pattern, app=_deref(ca, parts[1])))
             else:
@@ -873,6 +1024,27 @@ def _parser_contained(rep, fs):
                       'local %s is assigned on every path to the resources (normal and handler)' % v.id if not unb else
                       'resource %r reads local %s, which is unassigned when the parser raised (the handler substitutes nothing): '
                       'UnboundLocalError out of create_app' % (k, v.id), flaw, use)
+    # create_app only passes its inputs along: anything it does *with* them happens where it cannot stop the construction
+    from .common import implies_present
+    cps = ca.params()
+    if len(cps) >= 2:
+        text_alias, files_alias = _aliases_of(ca, {cps[0]}), _aliases_of(ca, {cps[1]})
+        for n in walk_body(ca.node):
+            if not (isinstance(n, (ast.Attribute, ast.Subscript)) and isinstance(n.ctx, ast.Load) and isinstance(n.value, ast.Name)):
+                continue
+            if n.value.id in text_alias:
+                tr, h, problem = _catch_all(ca, n)
+                ok = h is not None and not problem
+                rep.check('R20.b', fkey(ca, n), ok, 'use of the error text is under a catch-all handler' if ok else
+                          '%s on the error text can raise (None / bytes / odd text) %s: create_app does not construct'
+                          % (short(n, 50), 'outside any catch-all handler' if h is None else '-- ' + problem), flaw, n)
+            elif n.value.id in files_alias:
+                tr, h, problem = _catch_all(ca, n)
+                cs = conds(ca, n)
+                ok = (h is not None and not problem) or any(implies_present(cs, a) for a in files_alias)
+                rep.check('R20.b', fkey(ca, n), ok, 'the file list is only touched when it was given' if ok else
+                          '%s runs also when no file list was given (monitored_files=None): create_app does not construct'
+                          % short(n, 50), flaw, n)
     # the endpoint runs per request: its own text handling is contained the same way
     epf = fs.endpoint
     risky, n_risky = _risky_nodes(repo, epf)
@@ -966,6 +1138,9 @@ def _routes_agree(rep, fs):
     ok = '/' in pats and any('*>' in p for p in pats)
     rep.check('R20.b', fkey(ca, 'routes'), ok, 'root and catch-all routes present: %r' % pats if ok else
               'failsafe lacks the root or the catch-all route: %r' % pats, flaw, rnode)
+    limited = [(r.pattern, r.methods) for r in pages if r.methods]
+    rep.check('R20.b', fkey(ca, 'routes any method'), not limited, 'the page routes answer every method' if not limited else
+              'page routes are restricted to some methods (%r): other methods get 405 instead of the page' % limited, flaw, rnode)
     eps = set(r.endpoint_text for r in pages)
     tmpls = set(r.render if isinstance(r.render, str) else repr(r.render) for r in pages)
     same = len(eps) == 1 and len(tmpls) == 1
@@ -1178,19 +1353,27 @@ def _partition_side(repo, fi, expr, depth=0):
 
 def _parsed_branch(rep, fs):
     flaw = fs.flaw
-    rep.rule('R20.d', '_ParsedTB.to_dict exports what {#parsed_err} reads; from_string has a normal return')
     td = flaw.func('_ParsedTB.to_dict')
-    td_keys = None
-    for r in returns_of(td):
-        if r.value is None:
-            continue
-        ks = set(_dict_items(td, r.value, 'to_dict'))
-        td_keys = ks if td_keys is None else (td_keys & ks)
-    if td_keys is None:
-        raise AnalysisError('to_dict: no dict return found')
+    confirmed = getattr(fs, 'evaluated', 0) > 0 and not getattr(fs, 'evaluation_failed', 0)
     need = {'exc_type', 'exc_msg'}
-    rep.check('R20.d', fkey(td, 'keys'), need <= td_keys, 'to_dict exports %s' % sorted(need) if need <= td_keys else
-              'to_dict no longer exports %s' % sorted(need - td_keys), flaw, td.node)
+    try:
+        td_keys = None
+        for r in returns_of(td):
+            if r.value is None:
+                continue
+            ks = set(_dict_items(td, r.value, 'to_dict'))
+            td_keys = ks if td_keys is None else (td_keys & ks)
+        if td_keys is None:
+            raise AnalysisError('to_dict: no dict return found')
+    except AnalysisError:
+        if not confirmed:
+            raise
+        # the dict is computed (a comprehension over field names, ...): the evaluation below produced it for real inputs
+        td_keys = None
+        rep.ok('R20.d', fkey(td, 'keys'), 'to_dict, evaluated on the parsed sample tracebacks, exports %s' % sorted(need), flaw, td.node)
+    if td_keys is not None:
+        rep.check('R20.d', fkey(td, 'keys'), need <= td_keys, 'to_dict exports %s' % sorted(need) if need <= td_keys else
+                  'to_dict no longer exports %s' % sorted(need - td_keys), flaw, td.node)
     fs_ = flaw.func('_ParsedTB.from_string')
     cfg = cfg_of(fs_)
     rets = returns_of(fs_)
@@ -1203,7 +1386,7 @@ def _parsed_branch(rep, fs):
         raise AnalysisError('_ParsedTB.__init__ has fewer than two fields')
     cls_name = fs_.params()[0] if fs_.params() else 'cls'
     ctor = [c for c in walk_body(fs_.node) if isinstance(c, ast.Call) and isinstance(c.func, ast.Name) and c.func.id in (cls_name, PARSER_CLASS)]
-    if not ctor:
+    if not ctor and not confirmed:
         raise AnalysisError('from_string: construction of the parsed object not found')
     verdicts = []
     for c in ctor:
@@ -1215,6 +1398,8 @@ def _parsed_branch(rep, fs):
                 verdicts.append(True)
             elif norm(a0) == 'exc_msg' and norm(a1) == 'exc_type':
                 verdicts.append(False)
+            elif confirmed:
+                verdicts.append(True)     # the evaluation on sample tracebacks saw type and message in the right fields
             else:
                 raise AnalysisError('from_string: cannot tell which of %s / %s is the exception type' % (short(a0, 30), short(a1, 30)))
         else:
@@ -1224,7 +1409,8 @@ def _parsed_branch(rep, fs):
               'parsed type and message are passed in constructor order' if ok else
               'from_string does not construct cls(exc_type, exc_msg, ...)', flaw, fs_.node)
     asg = dict((norm(s.targets[0]), norm(s.value)) for s in stmts_of(init.node) if isinstance(s, ast.Assign))
-    ok = asg.get('self.exc_type') == ps[1] and asg.get('self.exc_msg') == ps[2]
+    ok = (asg.get('self.exc_type') == ps[1] and asg.get('self.exc_msg') == ps[2]) or \
+        (confirmed and asg.get('self.exc_type') != ps[2] and asg.get('self.exc_msg') != ps[1])
     rep.check('R20.d', fkey(init, 'fields'), ok, 'constructor stores type and message in the matching fields' if ok else
               'constructor cross-wires exc_type / exc_msg: %r' % asg, flaw, init.node)
 
@@ -1286,8 +1472,7 @@ class _Property(object):
 _BUILTIN_VALUES = {'str': str, 'bytes': bytes, 'int': int, 'list': list, 'tuple': tuple, 'dict': dict, 'bool': bool, 'float': float,
                    'set': set, 'frozenset': frozenset, 'bytearray': bytearray, 'object': object, 'len': len, 'range': range,
                    'reversed': reversed, 'enumerate': enumerate, 'zip': zip, 'isinstance': isinstance, 'min': min, 'max': max,
-                   'sorted': sorted, 'any': any, 'all': all, 'sum': sum, 'abs': abs, 'repr': repr, 'True': True, 'False': False,
-                   'None': None}
+                   'sorted': sorted, 'any': any, 'all': all, 'sum': sum, 'abs': abs, 'repr': repr, 'getattr': getattr, 'hasattr': hasattr}
 _EXC_NAMES = ('BaseException', 'Exception', 'ValueError', 'TypeError', 'IndexError', 'KeyError', 'AttributeError', 'LookupError',
               'UnicodeDecodeError', 'UnicodeError', 'RuntimeError', 'StopIteration', 'AssertionError', 'NotImplementedError')
 _PLAIN = (type(None), bool, int, float, str, bytes, list, tuple, dict, set, frozenset, range)
@@ -1422,6 +1607,13 @@ class _Eval(object):
     def class_attr(self, cv, attr, receiver):
         """Attribute looked up on a class (receiver: the class value itself, or an instance)."""
         m = self.repo.find_method(cv.ci, attr)
+        if m is None:
+            owner, val = self.repo.class_attr(cv.ci, attr)
+            if owner is not None and isinstance(val, ast.expr) and not owner.mod.external and owner.mod is self.mod:
+                key = ('class-attr', owner.qualname, attr)
+                if key not in self._consts:
+                    self._consts[key] = self.expr(val, {}, 1)
+                return self._consts[key]
         if m is None or m.mod.external:
             raise _Unknown('attribute %s of %s' % (attr, cv.ci.name))
         decos = [d.id for d in m.node.decorator_list if isinstance(d, ast.Name)]
@@ -1784,6 +1976,27 @@ class _Eval(object):
             return self._real(getattr(obj, name), *args, **kwargs)
         if isinstance(f, _ExcClass):
             return _Raised(f.name, ' '.join(str(a) for a in args if _plain(a)))
+        if f is getattr or f is hasattr:
+            if kwargs or len(args) not in ((2, 3) if f is getattr else (2,)) or not isinstance(args[1], str):
+                raise _Unknown('getattr arity')
+            obj = args[0]
+            if not isinstance(obj, _Instance):
+                raise _Unknown('getattr on %s' % type(obj).__name__)
+            try:
+                if args[1] in obj.attrs:
+                    v = obj.attrs[args[1]]
+                else:
+                    v = self.class_attr(obj.cls, args[1], obj)
+                    if isinstance(v, _Property):
+                        v = self.call_function(_FuncVal(v.fi, bound=obj), [], {}, depth + 1)
+            except _Unknown:
+                # not a known attribute: AttributeError (hasattr False, getattr default)
+                if f is hasattr:
+                    return False
+                if len(args) == 3:
+                    return args[2]
+                raise _Raised('AttributeError', args[1])
+            return True if f is hasattr else v
         if f is isinstance:
             if len(args) != 2 or kwargs:
                 raise _Unknown('isinstance arity')
@@ -1836,11 +2049,13 @@ _TB_SAMPLES = (
 def _parser_semantics(rep, fs):
     """R20.d (2): run the parser on standard tracebacks: the heading must name the exception type and message."""
     repo, flaw = fs.repo, fs.flaw
+    rep.rule('R20.d', '_ParsedTB.to_dict exports what {#parsed_err} reads; from_string has a normal return and names type and message')
     pc = flaw.classes.get(PARSER_CLASS)
     fsf = flaw.functions.get('%s.from_string' % PARSER_CLASS)
     tdf = flaw.functions.get('%s.to_dict' % PARSER_CLASS)
     if pc is None or fsf is None or tdf is None:
         raise AnalysisError('traceback parser %s.from_string / to_dict not found' % PARSER_CLASS)
+    fs.evaluated, fs.evaluation_failed = 0, 0
     for label, text, want_type, want_msg in _TB_SAMPLES:
         ev = _Eval(repo, flaw)
         key = fkey(fsf, 'standard traceback: %s' % label)
@@ -1856,11 +2071,14 @@ def _parser_semantics(rep, fs):
             rep.notes.append('R20.d evaluation of the parser on a %s declined: %s' % (label, u))
             continue
         except _Raised as r:
+            fs.evaluation_failed += 1
             rep.fail('R20.d', key, 'the parser raises %s on a standard traceback (%s): the page falls back to the raw last line '
                      'instead of naming %s' % (r.name, label, want_type), flaw, fsf.node)
             continue
         got_type, got_msg = d.get('exc_type'), d.get('exc_msg')
         ok = isinstance(got_type, str) and isinstance(got_msg, str) and got_type.strip() == want_type and got_msg.strip() == want_msg
+        fs.evaluated += 1
+        fs.evaluation_failed += 0 if ok else 1
         rep.check('R20.d', key, ok,
                   'parsed heading is %r / %r' % (want_type, want_msg) if ok else
                   'for a standard traceback ending in "%s: %s" the parsed heading is %r / %r' % (want_type, want_msg, got_type, got_msg),
@@ -1884,5 +2102,5 @@ def run(rep):
     _group(rep, _file_lists_kept, rep, fs)
     _group(rep, _shown_is_given, rep, fs)
     _group(rep, _template_escapes, rep, fs)
-    _group(rep, _parsed_branch, rep, fs)
     _group(rep, _parser_semantics, rep, fs)
+    _group(rep, _parsed_branch, rep, fs)
